@@ -100,8 +100,8 @@ def seq(ctx):
                     writers.append((name, n))
     R.check([w[0] for w in writers] == ['_get_next_tx_seq'], rule, f'{ERTM}._next_tx_seq | single writer', 'only _get_next_tx_seq advances the transmit sequence number', f'_next_tx_seq written in {[w[0] for w in writers]}', p.loc(ci.node))
     for name, n in writers:
-        if name == '_get_next_tx_seq' and isinstance(n, ast.Assign):
-            R.check(norm(n.value) == '(self._next_tx_seq + 1) % self.MAX_SEQ_NUM', rule, f'{ERTM}._get_next_tx_seq | +1 mod', 'advances by one modulo MAX_SEQ_NUM', f'advance is `{norm(n.value)}`', p.loc(n))
+        if name == '_get_next_tx_seq':
+            R.check(isinstance(n, ast.Assign) and norm(n.value) == '(self._next_tx_seq + 1) % self.MAX_SEQ_NUM', rule, f'{ERTM}._get_next_tx_seq | +1 mod', 'advances by one modulo MAX_SEQ_NUM', f'advance is `{norm(n)}`', p.loc(n))
     g = ci.methods.get('_get_next_tx_seq')
     if g is not None:
         rets = [norm(n.value) for n in walk_local(g) if isinstance(n, ast.Return)]
